@@ -54,3 +54,68 @@ Proof.
   intros p u1 u2 i H1 H2. unfold uri_id in *. apply index_of_ge in H1. apply index_of_ge in H2.
   destruct H1 as [_ H1]. destruct H2 as [_ H2]. congruence.
 Qed.
+
+(** ---- RangeTokenMap::getRange ---------------------------------------------------------------------------------- *)
+Section GetRangeProofs.
+  Variable T : Type.
+  Variable compl : T -> T.
+
+  Lemma get_range_pos : forall e c, s_pos T (fst (get_range T compl e c)) = s_pos T e.
+  Proof.
+    intros e c. unfold get_range. destruct c; cbn.
+    - destruct (s_neg T e); cbn; [reflexivity|]. destruct (s_pos T e) eqn:E; cbn; [reflexivity|exact E].
+    - destruct (s_pos T e) eqn:E; cbn; exact E.
+  Qed.
+
+  Lemma get_range_wf : forall e c, slots_wf T compl e -> slots_wf T compl (fst (get_range T compl e c)).
+  Proof.
+    intros e c W. unfold get_range. destruct c; cbn.
+    - destruct (s_neg T e) eqn:En; cbn; [exact W|]. destruct (s_pos T e) eqn:Ep; cbn; [|exact W].
+      intros p n Hp Hn. cbn in Hp, Hn. inversion Hp; inversion Hn; subst. reflexivity.
+    - destruct (s_pos T e); exact W.
+  Qed.
+
+  Lemma get_range_compl : forall e p, slots_wf T compl e -> s_pos T e = Some p ->
+    s_neg T (fst (get_range T compl e true)) = Some (compl p) /\ snd (get_range T compl e true) = Some (compl p).
+  Proof.
+    intros e p W Hp. unfold get_range. cbn. destruct (s_neg T e) eqn:En; cbn.
+    - pose proof (W p t Hp En) as Et. subst t. split; [exact En|reflexivity].
+    - rewrite Hp. cbn. split; reflexivity.
+  Qed.
+
+  Lemma run_requests_pos : forall reqs e, s_pos T (run_requests T compl e reqs) = s_pos T e.
+  Proof.
+    induction reqs as [|c reqs IH]; intros e; [reflexivity|].
+    change (run_requests T compl e (c :: reqs)) with (run_requests T compl (fst (get_range T compl e c)) reqs).
+    rewrite IH. apply get_range_pos.
+  Qed.
+
+  Lemma run_requests_wf : forall reqs e, slots_wf T compl e -> slots_wf T compl (run_requests T compl e reqs).
+  Proof.
+    induction reqs as [|c reqs IH]; intros e W; [exact W|].
+    change (run_requests T compl e (c :: reqs)) with (run_requests T compl (fst (get_range T compl e c)) reqs).
+    apply IH. apply get_range_wf. exact W.
+  Qed.
+
+  (** once a complement was requested, the complement slot holds the complement of the (unchanged) positive slot, whatever
+      the order and number of the other requests *)
+  Lemma run_requests_neg : forall reqs e p, slots_wf T compl e -> s_pos T e = Some p -> In true reqs ->
+    s_neg T (run_requests T compl e reqs) = Some (compl p).
+  Proof.
+    induction reqs as [|c reqs IH]; intros e p W Hp Hin; [contradiction|].
+    change (run_requests T compl e (c :: reqs)) with (run_requests T compl (fst (get_range T compl e c)) reqs).
+    assert (slots_wf T compl (fst (get_range T compl e c))) as W' by (apply get_range_wf; exact W).
+    assert (s_pos T (fst (get_range T compl e c)) = Some p) as Hp' by (rewrite get_range_pos; exact Hp).
+    destruct Hin as [->|Hin].
+    - destruct (get_range_compl e p W Hp) as [Hn _].
+      (* later requests keep a filled, well-formed complement slot *)
+      clear IH. revert Hn W' Hp'. generalize (fst (get_range T compl e true)). clear e W Hp.
+      induction reqs as [|c reqs IH]; intros e Hn W Hp; [exact Hn|].
+      change (run_requests T compl e (c :: reqs)) with (run_requests T compl (fst (get_range T compl e c)) reqs).
+      apply IH.
+      + unfold get_range. destruct c; cbn; [rewrite Hn; exact Hn|destruct (s_pos T e); exact Hn].
+      + apply get_range_wf. exact W.
+      + rewrite get_range_pos. exact Hp.
+    - apply IH; assumption.
+  Qed.
+End GetRangeProofs.
